@@ -4,7 +4,7 @@ from lib.coqterm import cbool, cbytes, clist, cN, copt, ccodepoints, hx, unhx
 
 ID = "C28"
 QUICK_N = 1500
-THOROUGH_N = 24000
+THOROUGH_N = 12000
 SHARD = 130
 RULE = ("10% upgrade hand-over cases (oracle only, not modelled): the real HttpLayer (transparent/regular) is driven through the HTTP/1 upgrade with server frames coalesced with the 101, client frames sent before the 101 is relayed (glued to the request head or not), payloads made of CR/LF tokens, segment cuts placed right behind CR/LF bytes (also mid-frame), zero or random client masks; 55% sessions with a real WebsocketLayer between two in-memory wsproto peers: 1-7 messages (text 60%/binary) in both "
         "directions built from a UTF-8 token dictionary (1-4 byte characters, emoji, combining marks), cut into 1-5 frames at "
